@@ -140,7 +140,10 @@ def wire(chk, sd):
     cs, r = cases.enumerate_cases("GenRelay", "GenRelay.cfg")
     cs = [c for c in cs if c[10] == "ids_on"]
     chk.add_tlc("relay exchanges with the ID middleware on (spec/Relay.tla)", r)
-    tp = cases.execute([binp, "relay"], cs, sd, "idwire", timeout=1800, extra_args=[str(vlib.seed())])
+    # through the real binary when it has been built (process_level does that): its own handler composition
+    hb = os.path.join(sd, "helios")
+    tp = cases.execute([binp, "relay"], cs, sd, "idwire", timeout=1800, extra_args=[str(vlib.seed())],
+                       env={"PROXYSIM_BIN": hb} if os.path.exists(hb) else None)
     chk.cov["traces_validated_against_impl"] += len(cs)
     chk.cov["wire_exchanges"] = len(cs)
 
